@@ -204,7 +204,7 @@ theorem mode_seen_by_fetcher (env : Env) (fuel : Nat) (p : PRef) (v : Option Boo
   · simp only [runStep, withParseSetting, decode, runSteps]
     apply seqR_head
     apply seqR_head
-    apply importTwice_head
+    apply importOnce_head
     apply seqR_head
     rfl
   · simp only [runStep]
@@ -399,25 +399,28 @@ theorem constants_never_written :
       !((rolesOfName d.2.2.1).all Role.isFixed) ||
       (runtimeWrites CssVerif.Gen.C12M.writes d.2.2.1).isEmpty) = true := by decide +kernel
 
-/-- the cache is written by its look-up (`Tokenizer.__init__`, the store of line 61) and cleared by `settings.set`;
+/-- the cache is written by its look-up (`Tokenizer._bind`, the store of line 75) and cleared by `settings.set`;
 of the two tables the computation reads, nothing writes `MACROS`, and `PRODUCTIONS` is written by `settings.set`
 alone — the function that clears the cache -/
 theorem memo_writers :
     runtimeWrites CssVerif.Gen.C12M.writes "_TOKENIZER_CACHE" =
       [("_TOKENIZER_CACHE", "cssutils/settings.py", "set", "call-clear"),
-       ("_TOKENIZER_CACHE", "cssutils/tokenize2.py", "Tokenizer.__init__", "setitem")] ∧
+       ("_TOKENIZER_CACHE", "cssutils/tokenize2.py", "Tokenizer._bind", "setitem")] ∧
     runtimeWrites CssVerif.Gen.C12M.writes "MACROS" = [] ∧
     runtimeWrites CssVerif.Gen.C12M.writes "PRODUCTIONS" =
       [("PRODUCTIONS", "cssutils/settings.py", "set", "call-insert")] := by decide +kernel
 
-/-- the tables handed out by the cache (shared by all `Tokenizer` objects of one key) are bound in `__init__` and
-never changed; a `Tokenizer` changes nothing but its push-back queue; a `LazyRegex` is written by `ensure` only
-(`pattern` never) -/
+/-- the tables handed out by the cache (shared by all `Tokenizer` objects of one key) are never changed in place:
+nothing writes into them, a `Tokenizer` only re-binds its three table attributes in `_bind` (from the cache, at
+creation and at the start of every run: `Memo.runTokenizer`) and changes its push-back queue; a `LazyRegex` is written
+by `ensure` only (`pattern` never) -/
 theorem memo_values_never_written :
     (["tokenmatches", "commentmatcher", "urimatcher"].all fun n =>
       (runtimeWrites CssVerif.Gen.C12M.writes n).isEmpty) = true ∧
     CssVerif.Gen.C12M.fields.filter (·.1 == "Tokenizer") =
-      [("Tokenizer", "clear", "_pushed", "set"), ("Tokenizer", "push", "_pushed", "set")] ∧
+      [("Tokenizer", "_bind", "commentmatcher", "set"), ("Tokenizer", "_bind", "tokenmatches", "set"),
+       ("Tokenizer", "_bind", "urimatcher", "set"),
+       ("Tokenizer", "clear", "_pushed", "set"), ("Tokenizer", "push", "_pushed", "set")] ∧
     CssVerif.Gen.C12M.fields.filter (·.1 == "LazyRegex") =
       [("LazyRegex", "ensure", "flags", "set"), ("LazyRegex", "ensure", "groupindex", "set"),
        ("LazyRegex", "ensure", "groups", "set"), ("LazyRegex", "ensure", "matcher", "set")] := by decide +kernel
@@ -479,37 +482,37 @@ theorem settings_must_clear_the_cache :
     let s := settingsSetNoClear (tkRun (pyCompile 8) (TkState.cold sampleG) [.new none none])
     (newTokenizer (pyCompile 8) s none none).1.map (·.1) ≠ tablesOf (pyCompile 8) s.glob none none := by decide
 
-/-- A `Tokenizer` object keeps the tables it was given: they are the recomputation under the current module-level
-tables as long as no `settings.set` happened since the object was created.
-FULL STATEMENT (false, see `tokenizer_object_stale_after_settings`; finding C12-settings-stale-tokenizers): the same
-without `hq` — the tables of every living `Tokenizer` are what a new one would get. -/
-theorem tokenizer_object_current_partial (cmp : Cmp ε τ) (s : TkState τ) (hs : Sound cmp s) (m : MacrosArg) (p : ProdsArg)
-    (ops : List TkOp) (hq : tkExplicit ops = []) (t : τ) (hit : Bool) (h : (newTokenizer cmp s m p).1 = .ok (t, hit)) :
-    (tkRun cmp (newTokenizer cmp s m p).2 ops).insts[s.insts.length]? = some t ∧
-    tablesOf cmp (tkRun cmp (newTokenizer cmp s m p).2 ops).glob m p = .ok t := by
-  constructor
-  · obtain ⟨l, hl⟩ := tkRun_insts cmp (newTokenizer cmp s m p).2 ops
-    rw [hl, newTokenizer_insts cmp s m p t hit h]
-    simp
-  · have hg := tkRun_glob cmp (newTokenizer cmp s m p).2 (newTokenizer cmp s m p).2 rfl ops
-    rw [hq] at hg
-    simp only [tkRun, List.foldl_nil] at hg
-    rw [show (tkRun cmp (newTokenizer cmp s m p).2 ops).glob = s.glob from by
-      rw [← newTokenizer_glob cmp s m p]; exact hg]
-    have := newTokenizer_result cmp s hs m p
-    rw [h] at this
-    exact this.symm
+/-- T12.4 for the long-lived objects, full strength since the fix "tokenizers which exist when settings.set changes the
+productions follow the new productions" (before: only without a `settings.set` since the object was created; finding
+C12-settings-stale-tokenizers): whatever happened since a `Tokenizer(m, p)` was created — any look-ups, runs and
+`settings.set` calls, in any order — the tables a run of it works with (`_bind` at the start of `tokenize`) are the
+recomputation for its arguments under the module-level tables as they are at that moment, i.e. what a new
+`Tokenizer(m, p)` would get -/
+theorem tokenizer_object_current (cmp : Cmp ε τ) (G : TkGlobals) (before since : List TkOp) (m : MacrosArg) (p : ProdsArg) :
+    let s := tkRun cmp (newTokenizer cmp (tkRun cmp (TkState.cold G) before) m p).2 since
+    (runTokenizer cmp s m p).1.map (·.1) = tablesOf cmp s.glob m p ∧
+    (runTokenizer cmp s m p).1.map (·.1) = (newTokenizer cmp s m p).1.map (·.1) := by
+  intro s
+  have hs : Sound cmp s :=
+    tkRun_sound cmp _ (newTokenizer_sound cmp _ (tkRun_sound cmp _ (sound_cold cmp G) before) m p) since
+  exact ⟨runTokenizer_result cmp s hs m p, rfl⟩
 
-/-- non-vacuity of `tokenizer_object_current_partial` -/
-example : tkExplicit [.new none none, .new (some ⟨[([104], [120])], by decide⟩) none] = [] ∧
-    ((newTokenizer (pyCompile 8) (TkState.cold sampleG) none none).1.map (·.2)) = .ok false := by decide
+/-- the attribute an object keeps between two runs is the table of its last look-up (objects are only ever added) -/
+theorem tokenizer_object_keeps_tables_between_runs (cmp : Cmp ε τ) (s : TkState τ) (m : MacrosArg) (p : ProdsArg)
+    (ops : List TkOp) (t : τ) (hit : Bool) (h : (newTokenizer cmp s m p).1 = .ok (t, hit)) :
+    (tkRun cmp (newTokenizer cmp s m p).2 ops).insts[s.insts.length]? = some t := by
+  obtain ⟨l, hl⟩ := tkRun_insts cmp (newTokenizer cmp s m p).2 ops
+  rw [hl, newTokenizer_insts cmp s m p t hit h]
+  simp
 
-/-- the negation of the full statement at a witness (finding C12-settings-stale-tokenizers): an object created
-before `settings.set` — `prodparser.tokenizer`, `Base.__tokenizer2`, the tokenizer of an existing `CSSParser` — keeps
-the tables without the new production, a `Tokenizer` created afterwards has it -/
-theorem tokenizer_object_stale_after_settings :
+/-- the witness of the former finding C12-settings-stale-tokenizers: an object created before `settings.set` —
+`prodparser.tokenizer`, `Base.__tokenizer2`, the tokenizer of an existing `CSSParser` — still holds the tables without
+the new production in its attributes, but its next run works with the tables that have it, like a `Tokenizer`
+created afterwards -/
+theorem fixed_tokenizer_object_follows_settings :
     let s := tkRun (pyCompile 8) (TkState.cold sampleG) [.new none none, .settings]
     (s.insts[0]?.map fun t => Except.ok t) ≠ some (tablesOf (pyCompile 8) s.glob none none) ∧
+    (runTokenizer (pyCompile 8) s none none).1.map (·.1) = tablesOf (pyCompile 8) s.glob none none ∧
     (newTokenizer (pyCompile 8) s none none).1.map (·.1) = tablesOf (pyCompile 8) s.glob none none := by decide
 
 /-- T12.4 for `util.LazyRegex`: after any history of method calls on an object created as `LazyRegex(pattern, flags)`,
